@@ -29,6 +29,10 @@ Inductive wop :=
 | WIfModule (body : list wop)         (* if let Some(module) = modules.module_at_address(frame.instruction) { body } *)
 | WFillSymbolAwait.                   (* let _ = symbol_provider.fill_symbol(module, frame).await; *)
 
+(* get_caller_by_cfi (one per architecture): its provider call; CfiStackWalker::from_ctx_and_args: where its module comes from *)
+Inductive cfiop := CfiWalkCalleeModule.      (* args.symbol_provider.walk_frame(stack_walker.module, &mut stack_walker).await? *)
+Inductive cfimod := CfiModuleOfCalleeInstruction.   (* module = args.modules.module_at_address(args.callee_frame.instruction)? *)
+
 Record walker := {
   w_process     : list wop;      (* into_process_state: uses of the provider, in order *)
   w_walk_stack  : list wop;      (* walk_stack *)
@@ -88,6 +92,14 @@ Definition process (P : program) (W : walker) (d : dump) (base : config) (fuel :
                    end
                end) (w_process W) (Some (pinit pc, [])).
 
+(* the lookups of the CFI attempt of get_caller_frame for a frame: walk_frame on the module covering the callee frame's
+   instruction (none when no module covers it: from_ctx_and_args returns None before the provider is asked) *)
+Definition cfi_lookups (ops : list cfiop) (m : cfimod) (f_mod : option key) : list lookup :=
+  flat_map (fun o => match o, m with
+                     | CfiWalkCalleeModule, CfiModuleOfCalleeInstruction =>
+                         match f_mod with Some k => [(EWalk, k)] | None => [] end
+                     end) ops.
+
 Definition canon_walker : walker :=
   {| w_process := [WStatsRead; WJoinAllThreads [WWalkStackAwait]; WStatsRead];
      w_walk_stack := [WWhileNewFrame [WFillSourceLineAwait; WGetCallerAwait]];
@@ -120,4 +132,10 @@ Definition canon_provider_users : list (string * list (string * nat)) := [
   ("minidump-unwind/src/x86.rs", [(".walk_frame(", 1)]);
   ("minidump-processor/src/processor.rs", [("symbol_provider.stats()", 2)])
 ].
+Definition canon_cfi : list (string * list cfiop) :=
+  [("amd64", [CfiWalkCalleeModule]); ("arm", [CfiWalkCalleeModule]); ("arm64", [CfiWalkCalleeModule]);
+   ("arm64_old", [CfiWalkCalleeModule]); ("mips", [CfiWalkCalleeModule]); ("x86", [CfiWalkCalleeModule])].
+Definition cfi_of (a : string) (l : list (string * list cfiop)) : list cfiop :=
+  match find (fun p => String.eqb (fst p) a) l with Some p => snd p | None => [] end.
+Definition x86_name : string := "x86".
 Close Scope string_scope.
